@@ -28,6 +28,7 @@ from .common import Check, REPO, run_driver, run_impl
 
 MODES = [None, "r", "w", "a"]
 MAX_SAFE = 9007199254740991
+MIN_NORMAL = Decimal(2) ** -1022
 
 # ==============================================================================================
 # worker side: descriptor -> real declaration, canonical values, the adapter
@@ -205,7 +206,7 @@ def to_pv(v, fl: _Flags):
         if not v.is_finite():
             fl.unsafe_dec = True
             return {"decSpecial": str(v)}
-        if abs(v) > MAX_SAFE:
+        if abs(v) > MAX_SAFE or (v and abs(v) < MIN_NORMAL):
             fl.unsafe_dec = True
         elif v.as_tuple().exponent and Decimal(float(v)) != v:
             fl.inexact = True
@@ -367,8 +368,12 @@ def impl(case):
         return {"pairs": True}
     from utype import JsonSchemaGenerator
     from utype.utils.encode import JSONEncoder
+    from utype import exc as _exc
     try:
         T = build(case["ty"])
+    except (_exc.ParseError, _exc.ConfigError) as e:
+        # the library refuses the declaration (e.g. a default the declared type does not accept): not a C13 case
+        return {"declaration_rejected": type(e).__name__}
     except Exception as e:
         return {"build_error": f"{type(e).__name__}: {e}"[:200]}
     gm = case.get("genMode")
@@ -726,6 +731,20 @@ def _json_kind(t):
     return "any"
 
 
+def _rejects_none(t):
+    """types whose (lenient) converter refuses None — int(None) is 0, str(None) is 'None', list(None) is [None] …"""
+    k = t["k"]
+    if k == "plain":
+        return t["p"] in ("date", "datetime", "time", "uuid")
+    if k in ("enum", "map", "data"):
+        return True
+    if k == "seq":
+        return _rejects_none(t["item"])
+    if k == "tup":
+        return all(_rejects_none(x) for x in t["items"])
+    return False
+
+
 def gen_logic(rng, depth):
     op = rng.choice(["anyOf", "anyOf", "anyOf", "oneOf", "allOf"])
     if op == "allOf":
@@ -740,11 +759,12 @@ def gen_logic(rng, depth):
         b = {"k": "scalar", "p": "str", "cons": {"length": rng.choice([1, 2, 3])}}
         return {"k": "logic", "op": op, "ts": [a, b] if rng.random() < 0.5 else [b, a]}
     if op == "oneOf":
-        for _ in range(10):
+        # exactly-one semantics on the original input: the other argument is `null`, so X must refuse None
+        for _ in range(20):
             x = gen_ty(rng, max(depth - 1, 0), "item")
-            if x["k"] in ("seq", "tup", "map", "data") or (x["k"] in ("plain", "scalar") and x["p"] in ("int", "float")):
+            if _rejects_none(x):
                 return {"k": "logic", "op": op, "ts": [x, {"k": "plain", "p": "null"}]}
-        return {"k": "logic", "op": op, "ts": [{"k": "plain", "p": "int"}, {"k": "plain", "p": "null"}]}
+        return {"k": "logic", "op": op, "ts": [{"k": "plain", "p": "date"}, {"k": "plain", "p": "null"}]}
     ts, kinds = [], set()
     for _ in range(rng.randint(2, 3)):
         t = gen_ty(rng, max(depth - 1, 0), "item")
@@ -1014,7 +1034,7 @@ def variants(v, rng):
     elif isinstance(v, str):
         out += [v + "z", v.upper(), v[:1], 7]
         if re.fullmatch(r"-?\d+(\.\d+)?", v):
-            out += ["1e20", "-123456789012345678901234567890", "NaN", "0.5"]
+            out += ["1e20", "-123456789012345678901234567890", "NaN", "0.5", "1e-400"]
     elif isinstance(v, list):
         out += [v + v[:1], v[:-1], [variants(x, rng)[0] if variants(x, rng) else x for x in v], "x"]
     elif isinstance(v, dict):
@@ -1199,6 +1219,12 @@ def source_tables(repo) -> dict:
     esrc = (repo / "utype/utils/encode.py").read_text()
     m = re.search(r"MAX_SAFE_NUMBER\s*=\s*(\d+)", esrc)
     t["MAX_SAFE"] = int(m.group(1)) if m else None
+    m = re.search(r"MIN_NORMAL_FLOAT\s*=\s*decimal\.Decimal\((\d+)\)\s*\*\*\s*(-?\d+)", esrc)
+    if m:
+        thr = Decimal(int(m.group(1))) ** int(m.group(2))
+        t["MIN_NORMAL_tiny_probe"] = [Decimal(k) * Decimal(10) ** -308 < thr for k in (1, 2, 3)]
+    else:
+        t["MIN_NORMAL_tiny_probe"] = None
     return t
 
 
@@ -1431,6 +1457,8 @@ class C13(Check):
                         if isinstance(b, bool) and a != b:
                             return f"validator: Lean={a} jsonschema={b} schema={json.dumps(p['schema'])[:300]} instance={json.dumps(inst)}"
             return None
+        if "declaration_rejected" in io:
+            return None
         if "build_error" in io:
             return "adapter could not build the declaration: " + io["build_error"]
         if "unmodelled" in mo:
@@ -1505,7 +1533,7 @@ class C13(Check):
     def _spec(self, case, io, probe, structure_only=False):
         if case.get("kind") == "pairs":
             return None
-        if not isinstance(io, dict) or "build_error" in io:
+        if not isinstance(io, dict) or "build_error" in io or "declaration_rejected" in io:
             return None
         if io.get("hang") or io.get("crash"):
             return "generator / parser did not return (hang or crash)"
@@ -1624,6 +1652,8 @@ class C13(Check):
     def distribution(self, case, io):
         if case.get("kind") == "pairs":
             return "pairs"
+        if isinstance(io, dict) and "declaration_rejected" in io:
+            return "declaration-rejected/" + io["declaration_rejected"]
         t = case["ty"]
         if t["k"] == "data":
             n_ok = sum(1 for o in (io.get("outs", []) if isinstance(io, dict) else []) if "enc" in o)
